@@ -5,6 +5,7 @@ import json, glob, os, subprocess, re
 STRENGTHENED = [
  ("C01-A", "C01: 'discard candidates in a nearly full block' variant: the block must equal the one mined from exactly the packaged transactions and be accepted (sound form; what FITS may depend on discarded candidates, which is only counted)"),
  ("C05-B", "chainkit menu (C01, C05): a transfer to self and a contract that CALLs itself with value (sender == recipient of a value transfer)"),
+ ("C05-C", "chainkit menu (C01, C05): create-oog-deposit, a value-carrying contract creation whose constructor succeeds but whose gas limit (55400) lies inside the code-deposit window (intrinsic 54320 + constructor < limit < + 15 bytes x 200 gas): the conservation monitor's 'amount moved iff the transaction succeeded' now sees the ErrCodeStoreOutOfGas path (session 4; before, only C16 caught this seed)"),
  ("C04-B", "C04: restart-centred scenario rst ({empty block, T, box(T,U), U} at two instants + restart, one to two levels deeper than lin)"),
  ("C03-D", "C03: two reduced-alphabet scenarios one level deeper: a fork off the MIDDLE of a path that becomes stable in one step, head on the fork"),
  ("C06-C", "C06: tamper 'gasPayer field emptied on the wire' (nil pointer in the encoding; the accessor answers the sender)"),
